@@ -35,6 +35,7 @@ LevelCandidates(nz) ==
       [] LevelLists = "mid"    -> {<<nz \div 2>>}
       [] LevelLists = "asc"    -> {<<nz \div 2>>, <<nz - 1>>, <<0, nz - 1>>, <<1, nz \div 2, nz - 1>>}
       [] LevelLists = "mixed"  -> {<<nz \div 2>>, <<nz - 1>>, <<0, nz - 1>>, <<nz - 1, 1>>, <<1, nz \div 2, nz - 1>>, <<nz \div 2, 0, nz - 1, 1>>}
+      [] LevelLists = "ends"   -> {<<0>>, <<nz - 1>>, <<0, nz - 1>>, <<nz - 1, 0>>}
       [] LevelLists = "pairs"  -> InjSeqs(nz, 2)
       [] LevelLists = "perms"  -> InjSeqs(nz, nz)
       [] LevelLists = "perms3" -> InjSeqs(nz, 3)
@@ -61,6 +62,7 @@ InitSet ==
       [] Family = "linear"    -> {b \in WithFp(WithLevels(Grid)) : Usable(b)}
       [] Family = "translate" -> {b \in WithTower(WithFp(WithLevels(Grid))) : Usable(b)}
       [] Family = "symmetry"  -> {b \in WithFp(WithLevels(Grid)) : Usable(b)}
+      [] Family = "boundary"  -> {b \in WithTower(WithFp(WithLevels(Grid))) : Usable(b) /\ (b.fp \/ (b.xm = 0 /\ b.ym = 0))}
       [] Family = "mirror"    -> {b \in WithTower(WithFp(WithLevels(Grid))) : Usable(b) /\ (b.fp \/ (b.xm = 0 /\ b.ym = 0))}
       [] Family = "levels"    -> {b \in WithFp(WithLevels({[x EXCEPT !.bg = 77] : x \in Grid})) : Usable(b)}
       [] Family = "shape"     -> {b \in WithFp(WithLevels(Grid)) : Usable(b)}
@@ -424,6 +426,32 @@ ClampEq ==
         SameFields(vres, Run([vc EXCEPT !.mx = G0.nxe, !.my = G0.nye]))
 
 (***************************************************************************)
+(* Boundary conditions (beyond the listed properties; halo = 0).            *)
+(* Surface: the flux at node 0 IS the prescribed surface flux, low-passed   *)
+(* to the retained modes - with all modes kept, cell by cell the source     *)
+(* (dispersion) or the unit impulse at the tower cell (footprint).          *)
+(* Top: at the top node every retained non-mean, paired mode satisfies the  *)
+(* radiation condition q^ = Kz * beta * p^ that the shooting combination    *)
+(* is there to enforce (numerical branch) / that the closed form has        *)
+(* (analytic branch).                                                       *)
+(***************************************************************************)
+SlotOf(node) == CHOOSE k \in 1..NL : vc.lv[k] = node
+SurfaceBC ==
+    (OK /\ vc.halo = 0 /\ G0.clamped /\ 0 \in SeqRange(vc.lv)) =>
+        LET k == SlotOf(0) IN
+        \A j \in 0..(vc.ny - 1), i \in 0..(vc.nx - 1) :
+            vres.flx[k][j][i] = (IF vc.fp THEN (IF j = ShiftJ /\ i = ShiftI THEN 1 ELSE 0) ELSE SrcVal(vc, j, i))
+TopBC ==
+    (OK /\ vc.halo = 0 /\ G0.clamped /\ ~vc.fp /\ (vc.nz - 1) \in SeqRange(vc.lv)) =>
+        LET g  == G0
+            k  == SlotOf(vc.nz - 1)
+            SP == SpecOf(vres.conc[k], vc.ny, vc.nx)
+            SQ == SpecOf(vres.flx[k], vc.ny, vc.nx)
+        IN  \A l \in 0..(vc.ny - 1), kk \in 0..(vc.nx - 1) :
+              ((l # 0 \/ kk # 0) /\ kk \notin NyqX(vc, g) /\ l \notin NyqY(vc, g)) =>
+                  SQ[l][kk] = CMul(CScale(ProfKz(vc, vc.nz - 1), BetaOf(vc, Lx(vc, g, kk), Ly(vc, g, l))), SP[l][kk])
+
+(***************************************************************************)
 (* the denominators of the shooting combination were invertible             *)
 (***************************************************************************)
 RegularRun == OK => Regular(vc, G0, Transfer(vc, G0))
@@ -449,6 +477,7 @@ Verdicts ==
                                   PointReflect |-> S /\ PointReflect, Recentre |-> S /\ Recentre,
                                   TranslateTowerIn |-> S /\ TranslateTowerIn, PointReflectIn |-> S /\ PointReflectIn]
       [] Family = "symmetry"  -> [ShapeOrError |-> S, MirrorX |-> S /\ MirrorX, MirrorY |-> S /\ MirrorY, Transpose |-> S /\ Transpose]
+      [] Family = "boundary"  -> [ShapeOrError |-> S, SurfaceBC |-> S /\ SurfaceBC, TopBC |-> S /\ TopBC]
       [] Family = "mirror"    -> [ShapeOrError |-> S, MirrorCentreX |-> S /\ MirrorCentreX, MirrorCentreY |-> S /\ MirrorCentreY]
       [] Family = "levels"    -> [ShapeOrError |-> S, SlotIsSingle |-> S /\ SlotIsSingle, FullColumnSlice |-> S /\ FullColumnSlice,
                                   NoSilentBroadcast |-> NoSilentBroadcast]
